@@ -1069,3 +1069,63 @@ def forward_variants(via: str, target: str, old_kw: str, W: World):
             out.append(dict(label=kind, recv=m, args=[db] + rest, kwargs=kw, value=values[old_kw]))
         return out
     return None
+
+
+# ---------------------------------------------------------------------------
+# hand-written old attributes (properties): receiver states, values that change behaviour, follow-up history
+# ---------------------------------------------------------------------------
+
+def _bg_history(bg):
+    """what a user goes on doing with the object after the assignment; every step records its result or its exception"""
+    from ..oracle.c20_observe import engine_norm
+    from ..oracle.c20_compare import scrub
+
+    out = {}
+    x = [-0.3, 0.1, 0.2]
+
+    def step(name, f):
+        try:
+            out[name] = f()
+        except BaseException as e:  # noqa
+            out[name] = {'raised': type(e).__name__, 'msg': engine_norm(scrub(str(e)))[:300]}
+
+    def est(quick):
+        r = bg.quick_estimate() if quick else bg.estimate()
+        return {'betas': r.get_beta_values(), 'loglike': r.data.logLike, 'threads': getattr(r.data, 'numberOfThreads', None),
+                'draws': getattr(r.data, 'numberOfDraws', None)}
+
+    step('values', lambda: {k: getattr(bg, k) for k in ('number_of_threads', 'number_of_draws', 'generate_pickle')})
+    step('likelihood', lambda: bg.calculate_likelihood(x, scaled=False))
+    step('simulate', lambda: bg.simulate({'b1': -0.4, 'asc2': 0.2, 'asc3': -0.1}))
+    step('likelihood_after_simulate', lambda: bg.calculate_likelihood(x, scaled=False))
+    step('likelihood_and_derivatives', lambda: bg.calculate_likelihood_and_derivatives(x, scaled=False, hessian=True, bhhh=True))
+    step('quick_estimate', lambda: est(True))
+    step('estimate', lambda: est(False))
+    step('likelihood_after_estimation', lambda: bg.calculate_likelihood(x, scaled=False))
+    return out
+
+
+def attribute_variants(owner: str, old: str, W: World):
+    """-> [dict(label, recv, value, history)] for an old attribute of ``owner``; value None = read only"""
+    if owner != 'biogeme.biogeme.BIOGEME':
+        return None
+
+    def used(bg):
+        bg.calculate_likelihood_and_derivatives(W.x0(bg), scaled=False, hessian=True, bhhh=True)
+        return bg
+
+    out = []
+    if old == 'numberOfThreads':
+        out = [dict(label='lowered-3-to-1-after-likelihood', recv=used(W.biogeme(number_of_threads=3)), value=1),
+               dict(label='lowered-4-to-2-fresh-weighted', recv=W.biogeme(weighted=True, number_of_threads=4), value=2),
+               dict(label='raised-1-to-3-after-likelihood', recv=used(W.biogeme(number_of_threads=1)), value=3),
+               dict(label='unchanged-2-to-2', recv=used(W.biogeme(number_of_threads=2)), value=2)]
+    elif old == 'numberOfDraws':
+        out = [dict(label='changed-20-to-37', recv=used(W.biogeme()), value=37), dict(label='fresh-weighted-20-to-5', recv=W.biogeme(weighted=True), value=5)]
+    elif old == 'generatePickle':
+        out = [dict(label='switched-on', recv=W.biogeme(), value=True), dict(label='switched-off-after-likelihood', recv=used(W.biogeme(generate_pickle=True)), value=False)]
+    else:
+        out = [dict(label='fresh', recv=W.biogeme(), value=None), dict(label='after-likelihood-weighted', recv=used(W.biogeme(weighted=True)), value=None)]
+    for v in out:
+        v['history'] = _bg_history
+    return out
